@@ -257,59 +257,63 @@ def roundtrip_checks(tier):
         offsets = ['+10:00', '-03:30', '+05:30', ''] if tier == 'quick' else ['+10:00', '-03:30', '+05:30', '+00:00', '', '-11:00', '+12:45', '-00:30']
         for k, off in enumerate(offsets):
             for conv in ('cf1d', 'shoc_standard', 'ugrid', 'cf2d'):
-                tname = 't' if conv == 'shoc_standard' else 'time'
-                tdim = 'record'
-                tvals = numpy.array(['2020-01-01T00:00', '2020-01-02T12:00'], dtype='datetime64[ns]')
-                if conv == 'cf1d':
-                    ds = builders.cf1d(2, 3, data_vars={'temp': ((tdim, 'y', 'x'), numpy.arange(12.0).reshape(2, 2, 3)),
-                                                        'count': (('y', 'x'), numpy.arange(6, dtype='int32').reshape(2, 3))})
-                elif conv == 'cf2d':
-                    ds = builders.cf2d(2, 2, data_vars={'temp': ((tdim, 'y', 'x'), numpy.arange(8.0).reshape(2, 2, 2))})
-                elif conv == 'shoc_standard':
-                    ds = builders.shoc_standard(2, 2, data_vars={'eta': ((tdim,) + builders.SHOC_DIMS['face'], numpy.arange(8.0).reshape(2, 2, 2))})
-                else:
-                    ds = builders.ugrid('tqp', fill='nan', data_vars={'eta': ((tdim, 'nface'), numpy.arange(6.0).reshape(2, 3))})
-                ds = ds.assign_coords({tname: ((tdim,), tvals)})
-                units = f'days since 1990-01-01T00:00:00{off}' if off else ('days since 1990-01-01' if k % 2 else 'days since 1990-01-01 00:00:00')
-                ds[tname].encoding.update(units=units, calendar='proleptic_gregorian', dtype='float64')
-                src = os.path.join(work, f'{conv}-{k}-src.nc')
-                ds.to_netcdf(src)
-                orig = emsarray.open_dataset(src)
-                cls = type(orig.ems)
-                out = os.path.join(work, f'{conv}-{k}-out.nc')
-                case = f'roundtrip:{conv}:{off}'
-                try:
-                    orig.ems.to_netcdf(out)
-                except Exception as e:
-                    V(case, 'saving through the convention succeeds', f'{type(e).__name__}: {e}', dict(units=units))
-                    continue
-                back = emsarray.open_dataset(out)
-                if type(back.ems) is not cls:
-                    V(case, 'the saved file is a dataset of the same convention', f'{cls.__name__} -> {type(back.ems).__name__}')
-                    continue
-                if not all((a is None and b is None) or (a is not None and b is not None and a.equals(b))
-                           for a, b in zip(orig.ems.polygons, back.ems.polygons)):
-                    V(case, 'identical polygons after the round trip', 'polygons differ')
-                for name in orig.variables:
-                    if name not in back.variables:
-                        V(case, 'identical variables after the round trip', f'{name} missing')
+              for scalar_time in ((False, True) if k < 2 else (False,)):
+                    tname = 't' if conv == 'shoc_standard' else 'time'
+                    tdim = 'record'
+                    tvals = numpy.array(['2020-01-01T00:00', '2020-01-02T12:00'], dtype='datetime64[ns]')
+                    if conv == 'cf1d':
+                        ds = builders.cf1d(2, 3, data_vars={'temp': ((tdim, 'y', 'x'), numpy.arange(12.0).reshape(2, 2, 3)),
+                                                            'count': (('y', 'x'), numpy.arange(6, dtype='int32').reshape(2, 3))})
+                    elif conv == 'cf2d':
+                        ds = builders.cf2d(2, 2, data_vars={'temp': ((tdim, 'y', 'x'), numpy.arange(8.0).reshape(2, 2, 2))})
+                    elif conv == 'shoc_standard':
+                        ds = builders.shoc_standard(2, 2, data_vars={'eta': ((tdim,) + builders.SHOC_DIMS['face'], numpy.arange(8.0).reshape(2, 2, 2))})
+                    else:
+                        ds = builders.ugrid('tqp', fill='nan', data_vars={'eta': ((tdim, 'nface'), numpy.arange(6.0).reshape(2, 3))})
+                    ds = ds.assign_coords({tname: ((tdim,), tvals)})
+                    units = f'days since 1990-01-01T00:00:00{off}' if off else ('days since 1990-01-01' if k % 2 else 'days since 1990-01-01 00:00:00')
+                    ds[tname].encoding.update(units=units, calendar='proleptic_gregorian', dtype='float64')
+                    if scalar_time:
+                        # one time step selected: the time coordinate is a scalar and is still saved with EMS units
+                        ds = ds.isel({tdim: 1})
+                    src = os.path.join(work, f'{conv}-{k}-{int(scalar_time)}-src.nc')
+                    ds.to_netcdf(src)
+                    orig = emsarray.open_dataset(src)
+                    cls = type(orig.ems)
+                    out = os.path.join(work, f'{conv}-{k}-{int(scalar_time)}-out.nc')
+                    case = f'roundtrip:{conv}:{off}' + (':scalar-time' if scalar_time else '')
+                    try:
+                        orig.ems.to_netcdf(out)
+                    except Exception as e:
+                        V(case, 'saving through the convention succeeds', f'{type(e).__name__}: {e}', dict(units=units))
                         continue
-                    a, b = orig[name].values, back[name].values
-                    same = (a.shape == b.shape) and (numpy.array_equal(a, b, equal_nan=True) if a.dtype.kind in 'fc' else numpy.array_equal(a, b))
-                    if not same:
-                        V(case, 'identical variable values / time instants after the round trip', f'{name}: {a} != {b}')
-                import netCDF4
-                with netCDF4.Dataset(src) as A, netCDF4.Dataset(out) as B:
-                    for name, var in B.variables.items():
-                        fa = '_FillValue' in A.variables[name].ncattrs() if name in A.variables else False
-                        if '_FillValue' in var.ncattrs() and not fa:
-                            V(case, 'no fill-value attributes that the source did not have', f'{name} gained _FillValue')
-                    tu = B.variables[tname].getncattr('units')
-                    if not re.fullmatch(r'days since \d{4}-\d{2}-\d{2} \d{2}:\d{2}:\d{2} [+-]\d{1,2}(:?\d{2})?', tu):
-                        V(case, "time units have the form '<unit> since YYYY-MM-DD HH:MM:SS <signed offset>'", tu)
-                orig.close()
-                back.close()
-                notes.append(case)
+                    back = emsarray.open_dataset(out)
+                    if type(back.ems) is not cls:
+                        V(case, 'the saved file is a dataset of the same convention', f'{cls.__name__} -> {type(back.ems).__name__}')
+                        continue
+                    if not all((a is None and b is None) or (a is not None and b is not None and a.equals(b))
+                               for a, b in zip(orig.ems.polygons, back.ems.polygons)):
+                        V(case, 'identical polygons after the round trip', 'polygons differ')
+                    for name in orig.variables:
+                        if name not in back.variables:
+                            V(case, 'identical variables after the round trip', f'{name} missing')
+                            continue
+                        a, b = orig[name].values, back[name].values
+                        same = (a.shape == b.shape) and (numpy.array_equal(a, b, equal_nan=True) if a.dtype.kind in 'fc' else numpy.array_equal(a, b))
+                        if not same:
+                            V(case, 'identical variable values / time instants after the round trip', f'{name}: {a} != {b}')
+                    import netCDF4
+                    with netCDF4.Dataset(src) as A, netCDF4.Dataset(out) as B:
+                        for name, var in B.variables.items():
+                            fa = '_FillValue' in A.variables[name].ncattrs() if name in A.variables else False
+                            if '_FillValue' in var.ncattrs() and not fa:
+                                V(case, 'no fill-value attributes that the source did not have', f'{name} gained _FillValue')
+                        tu = B.variables[tname].getncattr('units')
+                        if not re.fullmatch(r'days since \d{4}-\d{2}-\d{2} \d{2}:\d{2}:\d{2} [+-]\d{1,2}(:?\d{2})?', tu):
+                            V(case, "time units have the form '<unit> since YYYY-MM-DD HH:MM:SS <signed offset>'", tu)
+                    orig.close()
+                    back.close()
+                    notes.append(case)
     finally:
         shutil.rmtree(work, ignore_errors=True)
     return viol, notes
